@@ -112,6 +112,7 @@ class Lab:
         self.Header = prj.cls("codelimit.common.scope.Header:Header")
         self.TokenRange = prj.cls("codelimit.common.TokenRange:TokenRange")
         self.handed = []
+        self.moved = []         # tokens whose position or text differs after scan_file (measuring reads tokens, it does not write them)
 
     def run(self, program, nested: bool):
         lang = Sym("language", name="Stub", allow_nested_functions=nested)
@@ -146,8 +147,20 @@ class Lab:
             return NotImplemented
         it = MiniInterp(self.prj, hook, max_steps=600000, max_depth=60)
         toks = [make_token(it, self.prj, kind, text, line, col) for line, col, kind, text in layout(program)]
+        def positions():
+            res = []
+            for t in toks:
+                loc = it.getattr(t, "location", self.scan_file, None)
+                res.append((it.getattr(loc, "line", self.scan_file, None), it.getattr(loc, "column", self.scan_file, None), it.getattr(t, "value", self.scan_file, None)))
+            return res
+        before = positions()
         ms = it.call(self.scan_file, [toks, lang], {})
         ms = list(ms.rest()) if hasattr(ms, "rest") else ms
+        after = positions()
+        changed = [(b, a) for b, a in zip(before, after) if b != a]
+        if changed and not self.moved:
+            b, a = changed[0]
+            self.moved.append(f"the token {b[2]!r} lexed at line {b[0]}, column {b[1]} is at line {a[0]}, column {a[1]} after scan_file ({len(changed)} token(s) moved)")
         out = []
         for m in ms:
             f = m.fields
@@ -208,4 +221,5 @@ def scenarios(prj: Project):
         for nested in (True, False):
             out.append((name, nested, lab.run(prog, nested), expected(prog, nested)))
     out.append(("what the language object is handed", None, lab.handed, None))
+    out.append(("token positions after measuring", None, lab.moved, "moved"))
     return out
